@@ -373,15 +373,19 @@ size_t SimpleString::count(const SimpleString& substr) const
 
 void SimpleString::split(const SimpleString& delimiter, SimpleStringCollection& col) const
 {
-    size_t num = count(delimiter);
-    size_t extraEndToken = (endsWith(delimiter)) ? 0 : 1U;
+    size_t delimiterLength = delimiter.size() ? delimiter.size() : 1;
+    size_t num = 0; /* delimiters found scanning left to right, not overlapping */
+    const char* rest = getBuffer();
+    for (const char* found; *rest && (found = StrStr(rest, delimiter.getBuffer())) != NULLPTR; num++)
+        rest = found + delimiterLength;
+    size_t extraEndToken = (*rest || (num == 0 && !endsWith(delimiter))) ? 1U : 0;
     col.allocate(num + extraEndToken);
 
     const char* str = getBuffer();
     const char* prev;
     for (size_t i = 0; i < num; ++i) {
         prev = str;
-        str = StrStr(str, delimiter.getBuffer()) + 1;
+        str = StrStr(str, delimiter.getBuffer()) + delimiterLength;
         col[i] = SimpleString(prev).subString(0, size_t (str - prev));
     }
     if (extraEndToken) {
